@@ -518,6 +518,97 @@ def explore_failed_step(run, focus, n):
         run.case(cj, nontrivial=True)
 
 
+def explore_nested_circuit(run, focus, n):
+    """handlers that call complete_circuit() on their own chart (besides posting): the nested call, too, returns only when the
+    queue is empty, and the dispatch order is that of a double-ended queue driven by the same operations (oracle only; a
+    one-state chart whose handlers all answer HANDLED, so a nested dispatch leaves the chart where it is)"""
+    rng = run.rng
+    names = ["A", "B", "C", "D", "E", "F", "G"]
+    for _ in range(n):
+        scripts = {}
+        for i, nm in enumerate(names):
+            acts = []
+            for _k in range(rng.randint(0, 3)):
+                r = rng.random()
+                if r < 0.3 and i + 1 < len(names):
+                    acts.append(("F", rng.choice(names[i + 1:])))
+                elif r < 0.5 and i + 1 < len(names):
+                    acts.append(("L", rng.choice(names[i + 1:])))
+                elif r < 0.75:
+                    acts.append(("C",))
+            scripts[nm] = acts
+        initial = [rng.choice(names[:4]) for _ in range(rng.randint(1, 4))]
+        driver = rng.choice(["complete_circuit", "next_rtc"])
+        instrumented = rng.random() < 0.5
+        log, pending_after_nested = [], []
+
+        def st(chart, e):
+            sn = e.signal_name
+            if sn in scripts:
+                log.append(sn)
+                for act in scripts[sn]:
+                    if act[0] == "F":
+                        chart.post_fifo(Event(signal=act[1]))
+                    elif act[0] == "L":
+                        chart.post_lifo(Event(signal=act[1]))
+                    else:
+                        chart.complete_circuit()
+                        pending_after_nested.append(len(chart.queue))
+                return return_status.HANDLED
+            if e.signal in (signals.ENTRY_SIGNAL, signals.INIT_SIGNAL, signals.EXIT_SIGNAL):
+                return return_status.HANDLED
+            chart.temp.fun = chart.top
+            return return_status.SUPER
+        st.__name__ = "only"
+        hsm = mhsm.HsmWithQueues()
+        hsm.start_at(mhsm.spy_on(st) if instrumented else st)
+        for nm in initial:
+            hsm.post_fifo(Event(signal=nm))
+        # reference: plain lists
+        want, q = [], list(initial)
+
+        def circuit():
+            while q:
+                step()
+
+        def step():
+            nm = q.pop(0)
+            want.append(nm)
+            for act in scripts[nm]:
+                if act[0] == "F":
+                    q.append(act[1])
+                elif act[0] == "L":
+                    q.insert(0, act[1])
+                else:
+                    circuit()
+        err = None
+        try:
+            if driver == "complete_circuit":
+                hsm.complete_circuit()
+                circuit()
+            else:
+                for _k in range(200):
+                    if len(hsm.queue) == 0:
+                        break
+                    hsm.next_rtc()
+                while q:
+                    step()
+        except Exception as ex:  # noqa
+            err = "%s: %s" % (type(ex).__name__, ex)
+        cj = {"what": "nested-circuit", "scripts": scripts, "initial": initial, "driver": driver, "instrumented": instrumented}
+        run.count("handlers calling complete_circuit (%d nested calls)" % min(3, len(pending_after_nested)))
+        run.traces_validated += 1
+        if err:
+            run.violate("%s/nested-circuit-error" % focus, "handlers calling complete_circuit on their own chart: %s" % err, cj)
+        elif any(pending_after_nested):
+            run.violate("%s/complete-circuit-returned-with-events-pending" % focus, "a complete_circuit() called from a handler returned with %s "
+                        "event(s) still queued (initial queue %s, driven by %s)" % ([x for x in pending_after_nested if x], initial, driver), cj)
+        elif log != want:
+            run.violate("%s/nested-circuit-order" % focus, "initial queue %s, handler scripts %s, driven by %s: dispatched %s, a double-ended queue "
+                        "driven by the same operations gives %s" % (initial, {k: v for k, v in scripts.items() if v}, driver, log, want), cj)
+        run.case(cj, nontrivial=bool(pending_after_nested))
+
+
 def deque_oracle(run, c, eff, cap, ops, real, hsm, cj):
     """C14: the dispatch order and the queue after every op must be those of a double-ended queue driven by
     the same operations (client ops and the handlers' own posts, taken from the handlers' invocation record)"""
@@ -596,8 +687,8 @@ def upto(cj, idx):
 
 def replay(case):
     cc = case.get("case", case)
-    if cc.get("what") == "failed-step":
-        print("failed-step case:", cc)
+    if cc.get("what") in ("failed-step", "nested-circuit"):
+        print(cc.get("what"), "case:", cc)
         return 0
     if cc.get("what") == "same-objects":
         print("sequence of operations on %d kept event objects (%s chart):" % (cc["pool"], "instrumented" if cc["instrumented"] else "un-instrumented"), cc["ops"])
